@@ -3,7 +3,7 @@
 From Coq Require Import String.
 From Coq Require Import List Arith Bool ZArith NArith.
 Import ListNotations.
-From YP Require Import Base.Str Term.Term Term.Show Term.Fast Unify.Unify Unify.Fast Lang.Ast Comp.IR Comp.CompileClause Sem.Machine Sem.Sld.
+From YP Require Import Base.Str Term.Term Term.Show Term.Fast Unify.Unify Unify.Fast Lang.Ast Comp.IR Comp.CompileClause Sem.Machine Sem.Sld Sem.SldR.
 Local Open Scope string_scope.
 Local Open Scope list_scope.
 
@@ -22,6 +22,12 @@ Definition run_ir (depth : nat) (p : program) (name : str) (args : list term) (n
 
 Definition run_sld (depth : nat) (p : program) (name : str) (args : list term) (nq limit : nat) : obs :=
   answers_obs nq (solve depth p name args (st0 nq)) limit.
+
+(* evaluating solveR is slow on bushy searches (every clause attempt leaves its trivial head bindings in the
+   store that is threaded to the later clauses), so the harness does not run it: its agreement with the other two
+   is a theorem (Sem/RenameSim.v), not something to test *)
+Definition run_sldr (depth : nat) (p : program) (name : str) (args : list term) (nq limit : nat) : obs :=
+  answers_obs nq (solveR depth p name args (st0 nq)) limit.
 
 Definition run_both (depth : nat) (p : program) (qs : list (str * list term * nat)) (limit : nat) : obs :=
   OL (map (fun q => let '(name, args, nq) := q in
